@@ -276,6 +276,29 @@ CHECKS = {
         "7k polygons, 7k profiles, quarter of 19k images, 1.7k matrices."),
   technique="TLC-enumerated lattice instances with exact oracles replayed on dclab.features",
  ),
+ "C05": dict(
+  level="model_checking",
+  design_ref="DESIGN.md sections 5 (C05) and 7",
+  text=("EmodulusSpec computes, for a lattice LUT whose Delaunay "
+        "triangulation is the same under every axis scaling (triangle + "
+        "interior node), the exact rational barycentric interpolation "
+        "(NaN outside the hull) after the documented scaling laws, and TLC "
+        "proves proportionality to viscosity and flow rate and invariance "
+        "under joint geometric rescaling for every batch and parameter "
+        "set. Every enumerated batch (points inside, on nodes/edges, "
+        "outside hull and bounding box) x integer ratios is evaluated by "
+        "get_emodulus through the array+meta, path and registered-"
+        "identifier routes: as a batch, event by event and repeatedly, with "
+        "the caller's arrays and LUT checked for modification. Paired calls "
+        "on the three built-in LUTs are recorded in micro-kPa and TLC "
+        "(EmodulusTrace) decides the laws: viscosity x2, flow rate x2, "
+        "joint rescale, batch split, per-event vs global temperature."),
+  note=("claimed without 'equals the piecewise-linear interpolation of the "
+        "selected built-in table' over the continuous plane and without the "
+        "viscosity formulas (numeric accuracy, DESIGN section 7); px_um = 0 "
+        "only; quick: a sixth of 33k cases + 9 pairs; thorough: all + 90."),
+  technique="TLC exact rational oracle on a lattice LUT + TLC-checked laws on recorded paired calls",
+ ),
 }
 
 NOT_YET = "check not built yet (work in progress; see DESIGN.md section 5)"
